@@ -983,3 +983,268 @@ def gen_invocation(b):
             b.burst([hret("ok")], adv=det["timeout"]["i"], prearm=rng.random() < 0.5)
     else:
         b.burst([b.msg("invocation", req={"lit": iid}, reg=777, tag=b.tag())])   # unknown registration
+
+
+# --------------------------------------------------------------------------
+# monitors: the C16 / C17 predicates on what the implementation did
+
+
+class Trace:
+    """Schedule + observations, indexed for the monitors."""
+
+    def __init__(self, sched, res):
+        self.s = sched
+        self.r = res
+        self.obs = res.get("obs", [])
+        self.rt = sched["cfg"].get("rt_ms", RT)
+        self.mode = sched["cfg"].get("cancel_mode", "") or "killnowait"
+        self.ops = {}
+        self.times = []
+        now = 0
+        for bi, b in enumerate(sched["bursts"]):
+            now += b.get("adv", 0)
+            self.times.append(now)
+            for l in b["labels"]:
+                if l["k"] == "api":
+                    self.ops[l["o"]] = dict(l, burst=bi, t=now)
+        self.op_req = {}
+        for o in self.obs:
+            if o["e"] == "sent" and o.get("xop") and o["xop"] not in self.op_req and o["typ"] in (
+                    "SUBSCRIBE", "UNSUBSCRIBE", "REGISTER", "UNREGISTER", "PUBLISH", "CALL"):
+                self.op_req[o["xop"]] = o.get("req", 0)
+        # router messages actually sent: (position in obs, burst, time, label message, resolved request id)
+        self.sent = []
+        for pos, o in enumerate(self.obs):
+            if o["e"] == "rmsg" and 0 <= o["b"] < len(sched["bursts"]):
+                labs = sched["bursts"][o["b"]]["labels"]
+                li = o.get("n", 0)
+                if li < len(labs) and labs[li]["k"] == "msg":
+                    self.sent.append((pos, o["b"], o["t"], labs[li]["m"], o.get("req", 0)))
+        self.rets = {}
+        for pos, o in enumerate(self.obs):
+            if o["e"] == "ret":
+                self.rets.setdefault(o["o"], []).append((pos, o))
+        self.end_t = None   # when the connection ended (router's doing or Close)
+        for pos, o in enumerate(self.obs):
+            if o["e"] == "done":
+                self.end_t = o["t"]
+                break
+
+    def msgs_for(self, req, kinds=None):
+        return [x for x in self.sent if x[4] == req and req != 0 and (kinds is None or x[3]["t"] in kinds)]
+
+
+def is_progressive(m):
+    d = (m.get("details") or {}).get("progress")
+    return bool(d) and d.get("ty") == "bool" and d.get("b") is True
+
+
+def monitor_c16(sched, res):
+    """-> list of (signature, what).  The C16 predicates on the observed run."""
+    T = Trace(sched, res)
+    bad = []
+
+    def v(sig, what):
+        bad.append(("C16 " + sig, what))
+
+    FINAL = {"subscribe": "subscribed", "unsubscribe": "unsubscribed", "register": "registered",
+             "unregister": "unregistered", "publish": "published", "call": "result", "callprog": "result"}
+    cancel_t = {}
+    for bi, b in enumerate(sched["bursts"]):
+        for l in b["labels"]:
+            if l["k"] == "cancel":
+                cancel_t.setdefault(l["o"], T.times[bi])
+    for o, lab in T.ops.items():
+        if lab.get("ctx") == "deadline":
+            cancel_t.setdefault(o, lab["t"] + lab.get("deadline_ms", 0))
+    cancels_sent = {}
+    for pos, ob in enumerate(T.obs):
+        if ob["e"] == "sent" and ob["typ"] == "CANCEL":
+            cancels_sent.setdefault(ob.get("req", 0), []).append((pos, ob))
+
+    for o, lab in T.ops.items():
+        kind = lab["op"]
+        rets = T.rets.get(o, [])
+        if len(rets) > 1:
+            v("api returned twice", "op %d (%s) returned %d times" % (o, kind, len(rets)))
+        if not rets:
+            continue   # the harness reports an API call that never returns as a hang
+        pos, r = rets[0]
+        req = T.op_req.get(o, 0)
+        rr = r["r"]
+        mine = T.msgs_for(req)
+        before = [x for x in mine if x[0] < pos]
+        if rr == "ok":
+            want = FINAL[kind]
+            if kind == "publish" and not lab.get("ack"):
+                pass
+            else:
+                cands = [x for x in before if x[3]["t"] == want]
+                if not cands:
+                    v("returned without its own reply", "op %d (%s, request %d) returned success but no %s with its request id had been sent"
+                      % (o, kind, req, want.upper()))
+                elif kind == "subscribe" and r.get("sub") not in [x[3].get("sub") for x in cands]:
+                    v("returned another request's reply", "op %d subscribe: subscription id %s is not the one of its SUBSCRIBED" % (o, r.get("sub")))
+                elif kind == "register" and r.get("reg") not in [x[3].get("reg") for x in cands]:
+                    v("returned another request's reply", "op %d register: registration id %s is not the one of its REGISTERED" % (o, r.get("reg")))
+                elif kind in ("call", "callprog"):
+                    tags = [msg_atag(x[3]) for x in cands if not (is_progressive(x[3]) and lab.get("prog"))
+                            and not (x[3].get("details") or {}).get("ppt_scheme")]
+                    ppt = [x for x in cands if (x[3].get("details") or {}).get("ppt_scheme")]
+                    if r.get("req") != req:
+                        v("returned another request's reply", "op %d call: RESULT carries request %s, own is %d" % (o, r.get("req"), req))
+                    elif r.get("tag") not in tags and not ppt:
+                        v("returned another request's reply", "op %d call: result payload %s is none of its final RESULTs %s" % (o, r.get("tag"), tags))
+        elif rr in ("rpcerr", "err_reply"):
+            errs = [x for x in before if x[3]["t"] == "error"]
+            if rr == "rpcerr" and r.get("req") != req:
+                v("returned another request's reply", "op %d: ERROR carries request %s, own is %d" % (o, r.get("req"), req))
+            elif r.get("tag") not in [msg_atag(x[3]) for x in errs]:
+                v("returned another request's reply", "op %d (%s): error payload %s is none of its ERRORs" % (o, kind, r.get("tag")))
+        elif rr == "timeout":
+            ct = cancel_t.get(o)
+            cancelled = ct is not None and any(c[1]["t"] == ct or True for c in cancels_sent.get(req, [])) and req in cancels_sent
+            if kind in ("call", "callprog"):
+                if not cancelled:
+                    v("call timed out without cancellation", "op %d: Call returned ErrReplyTimeout but its context was never cancelled" % o)
+                else:
+                    t_c = cancels_sent[req][0][1]["t"]
+                    if r["t"] != t_c + T.rt:
+                        v("timeout at the wrong instant", "op %d: timed out at %d, CANCEL sent at %d, response timeout %d" % (o, r["t"], t_c, T.rt))
+                    early = [x for x in before if x[3]["t"] == "error" and t_c <= x[2] < t_c + T.rt and x[0] > cancels_sent[req][0][0]]
+                    if early:
+                        v("reply in time but timed out", "op %d: the ERROR answering its CANCEL was sent at %d, before the timeout at %d" % (o, early[0][2], r["t"]))
+            else:
+                dl = lab["t"] + T.rt
+                if r["t"] != dl:
+                    v("timeout at the wrong instant", "op %d (%s): started %d, timed out at %d, response timeout %d" % (o, kind, lab["t"], r["t"], T.rt))
+                early = [x for x in before if x[2] < dl and x[3]["t"] in (FINAL[kind], "error")]
+                if early:
+                    v("reply in time but timed out", "op %d (%s, request %d): its %s was sent at %d, before the timeout at %d"
+                      % (o, kind, req, early[0][3]["t"].upper(), early[0][2], dl))
+        elif rr == "notconn":
+            if T.end_t is None or T.end_t > r["t"]:
+                v("ErrNotConn on a live connection", "op %d (%s) returned ErrNotConn at %d, connection ended %s" % (o, kind, r["t"], T.end_t))
+        elif rr in ("ctx_canceled", "ctx_deadline"):
+            ct = cancel_t.get(o)
+            if ct is None or ct > r["t"]:
+                v("context error without cancellation", "op %d returned %s at %d but its context was live" % (o, rr, r["t"]))
+        # cancellation: CANCEL with the configured mode, then the context's error (or the timeout)
+        if kind in ("call", "callprog") and o in cancel_t and req:
+            ct = cancel_t[o]
+            if r["t"] > ct or (r["t"] == ct and rr in ("ctx_canceled", "ctx_deadline", "timeout")):
+                mine_c = [c for c in cancels_sent.get(req, []) if c[1]["t"] >= ct]
+                own = [c for c in mine_c if c[1].get("mode") == T.mode]
+                if not mine_c:
+                    v("cancelled call sent no CANCEL", "op %d: context cancelled at %d, no CANCEL for request %d" % (o, ct, req))
+                elif not own:
+                    v("CANCEL with the wrong mode", "op %d: CANCEL mode %r, configured %r" % (o, mine_c[0][1].get("mode"), T.mode))
+                if rr not in ("ctx_canceled", "ctx_deadline", "timeout", "notconn") and r["t"] > ct:
+                    v("cancelled call returned a reply", "op %d: context cancelled at %d, Call returned %s at %d" % (o, ct, rr, r["t"]))
+        # progress: in order, before the return
+        if lab.get("prog") and kind in ("call", "callprog"):
+            progs = [(p, x) for p, x in enumerate(T.obs) if x["e"] == "prog" and x["o"] == o]
+            if any(p > pos for p, _ in progs):
+                v("progress handler ran after Call returned", "op %d: progress callback logged after the return" % o)
+            want = [msg_atag(x[3]) for x in mine if x[3]["t"] == "result" and is_progressive(x[3])]
+            got = [x.get("tag") for _, x in progs]
+            it = iter(want)
+            if not all(any(g == w for w in it) for g in got):
+                v("progressive results out of order", "op %d: handler saw %s, router sent %s" % (o, got, want))
+
+    # events: one at a time, in arrival order
+    depth = 0
+    for ob in T.obs:
+        if ob["e"] == "event":
+            depth += 1
+            if depth > 1:
+                v("event handlers overlapped", "two event handlers were running at once")
+                break
+        elif ob["e"] == "evx":
+            depth -= 1
+    sent_ev = [x[3].get("pub") for x in T.sent if x[3]["t"] == "event"]
+    got_ev = [ob.get("pub") for ob in T.obs if ob["e"] == "event"]
+    it = iter(sent_ev)
+    if not all(any(g == w for w in it) for g in got_ev):
+        v("events out of order", "handlers saw publications %s, router sent %s" % (got_ev, sent_ev))
+
+    # invocations
+    invs = {}
+    for x in T.sent:
+        if x[3]["t"] == "invocation":
+            invs.setdefault(x[4], []).append(x)
+    finals = {}
+    for pos, ob in enumerate(T.obs):
+        if ob["e"] == "sent" and ((ob["typ"] == "YIELD" and not ob.get("prog")) or
+                                  (ob["typ"] == "ERROR" and ob.get("uri") in ("wamp.error.canceled", "x.app.error"))):
+            finals.setdefault(ob.get("req", 0), []).append((pos, ob))
+    for req, chunks in invs.items():
+        calls = [(p, ob) for p, ob in enumerate(T.obs) if ob["e"] == "inv" and ob.get("req") == req]
+        regs = set(x[3].get("reg") for x in chunks)
+        fin = finals.get(req, [])
+        if len(regs) == 1:
+            # one run per (registration, request): at most one final reply ...
+            if len(fin) > 1:
+                v("more than one YIELD/ERROR for an invocation", "request %d answered %d times" % (req, len(fin)))
+            progressive = any(is_progressive(x[3]) for x in chunks)
+            if not progressive and len(calls) > 1:
+                v("handler ran more than once for an invocation", "request %d: %d handler calls for a non-progressive invocation repeated %d times"
+                  % (req, len(calls), len(chunks)))
+            # ... and chunks reach the handler in order
+            want = [msg_atag(x[3]) for x in chunks]
+            got = [ob.get("tag") for _, ob in calls]
+            it = iter(want)
+            if not all(any(g == w for w in it) for g in got):
+                v("invocation chunks out of order", "request %d: handler saw %s, router sent %s" % (req, got, want))
+            if fin and any(p > fin[0][0] for p, _ in calls):
+                late = [ob for p, ob in calls if p > fin[0][0]]
+                if not all(ob.get("ctx") for ob in late):
+                    v("handler started after the invocation was answered", "request %d" % req)
+        for pos, ob in fin:
+            if ob.get("req") != req:
+                v("reply with a foreign request id", "request %d" % req)
+    # a handler that returned a result / an interrupt while running => exactly one final reply
+    for pos, ob in enumerate(T.obs):
+        if ob["e"] == "invret" and ob.get("r") in ("ok", "err") and (T.end_t is None or T.end_t > ob["t"]):
+            req = ob.get("req")
+            if not finals.get(req):
+                v("invocation never answered", "request %d: handler returned %s, no YIELD/ERROR was sent" % (req, ob.get("r")))
+    running = {}
+    for pos, ob in enumerate(T.obs):
+        if ob["e"] == "inv":
+            running[ob.get("req")] = ob
+        elif ob["e"] in ("invret", "invctx"):
+            running.pop(ob.get("req"), None)
+        elif ob["e"] == "rmsg" and ob.get("typ") == "interrupt" and ob.get("req") in running:
+            req = ob.get("req")
+            b = ob["b"]
+            if not any(x["e"] == "invctx" and x.get("req") == req and x["b"] == b for x in T.obs[pos:]):
+                v("INTERRUPT did not cancel the handler's context", "request %d, burst %d" % (req, b))
+            running.pop(req, None)
+    return bad
+
+
+def monitor_c17(sched, res):
+    """The C17 predicates that are not already the harness's hang / leak /
+    crash oracles: liveness probes planted by the script must be answered."""
+    bad = []
+    T = Trace(sched, res)
+    for probe in sched.get("probes", []):
+        kind = probe["k"]
+        if kind == "event":
+            if not any(ob["e"] == "event" and ob.get("pub") == probe["pub"] for ob in T.obs):
+                bad.append(("C17 client stopped processing messages",
+                            "the EVENT (publication %d) sent after the hostile message never reached its handler" % probe["pub"]))
+        elif kind == "ret":
+            rets = T.rets.get(probe["o"], [])
+            if not rets:
+                continue
+            if rets[0][1]["r"] != probe["r"]:
+                bad.append(("C17 API call after the hostile message got %s" % rets[0][1]["r"],
+                            "op %d was answered in time by the script, expected %s" % (probe["o"], probe["r"])))
+    return bad
+
+
+def summarize(res):
+    return {"status": res.get("status"), "why": res.get("why"), "gomaxprocs": res.get("gomaxprocs"),
+            "obs": res.get("obs", [])[:200], "stacks": (res.get("stacks") or "")[:4000]}
